@@ -474,6 +474,136 @@ func (x *c09L5) clock(name string, q0 c09Q, key string, ask func(string) c09Q) {
 	}
 }
 
+// c09SigClassNotEchoed is the one signature of the known finding "a query of a class other than IN
+// for a (name, type) that is in the cache is answered with a class-IN question section". Nothing
+// else is reported under it: the reply must have the client's ID, exactly one question with the
+// client's name and type, and class IN where the client sent another class.
+const c09SigClassNotEchoed = "reply-question-class-not-echoed/cache-hit"
+
+// classProbe: queries of class CH (3). (a) for a (name, type) that is in the cache and fresh (an IN
+// query just before makes sure of it; "served from the cache" is read from the upstream call log);
+// (b) for a name of the pool this round has not used (cache miss: goes upstream).
+func (x *c09L5) classProbe(state map[string]string, qtype map[string]uint16) {
+	m := x.e.m
+	w := x.rd.world
+	r := x.r
+	// ---- (a) cache hit
+	var cands []string
+	for _, q := range x.rd.qs {
+		if st := state[q.Name]; st == "answer" || st == "slow" || st == "negative" {
+			cands = append(cands, q.Name)
+		}
+	}
+	if len(cands) == 0 {
+		m.Count("L5_class_probe_skipped_no_cacheable_name", 1)
+	} else {
+		name := cands[r.IntN(len(cands))]
+		in := c09Q{Name: c09MixCase(r, name), Type: qtype[name], Class: dnsmessage.ClassINET}
+		c := x.do("writer", in, x.id())
+		x.judge(c, "class-probe-prime")
+		x.settle("the class probe's priming query")
+		keys := x.entries(in)
+		fresh := false
+		if len(keys) > 0 {
+			b, _ := x.bucket(keys[0])
+			fresh = b != "stale" && b != "expired" && b != "missing"
+		}
+		if !fresh {
+			m.Count("L5_class_probe_skipped_entry_not_fresh", 1)
+		} else {
+			q := in
+			q.Name = c09MixCase(r, name)
+			q.Class = dnsmessage.ClassCHAOS
+			calls0 := len(w.snapshotCalls())
+			c := x.do(x.path(), q, x.id())
+			hit := len(w.snapshotCalls()) == calls0
+			x.logf("class CH query for a cached (name,type) via %s (%s), served from cache=%v: %s %s", c.Path, q, hit, strings.Join(c.Replies, " || "), c.Err)
+			if !hit {
+				m.Count("L5_class_probe_went_upstream_although_cached", 1)
+				x.judge(c, "class-CH-after-prime-miss")
+			} else {
+				m.Count("L5_class_probe_cache_hit_judged", 1)
+				m.Count("L5_class_probe_cache_hit_judged/"+c.Path, 1)
+				for i, rp := range c.replies {
+					if rp == nil || len(rp.Question) != 1 || rp.Question[0].Qclass != dnsmessage.ClassINET {
+						continue // anything else is for the ordinary oracle below
+					}
+					// the known finding, and only it: class IN in place of the client's class. The rest of
+					// the reply is judged as if the class had been echoed.
+					cc := c
+					c09V(m, c09SigClassNotEchoed,
+						fmt.Sprintf("query (%s) for a cached (name,type): the reply's question section is [%s %s c%d], the client asked class %d",
+							q, rp.Question[0].Name, dnsmessage.TypeToString[rp.Question[0].Qtype], rp.Question[0].Qclass, q.Class),
+						x.witness(map[string]any{"client": cc, "cache_key": keys[0]}))
+					m.Count("L5_class_probe_cache_hit_answered_with_class_IN", 1)
+					cp := rp.Copy()
+					cp.Question[0].Qclass = q.Class
+					c.replies[i] = cp
+				}
+				x.judge(c, "class-CH-cache-hit")
+				for _, rp := range c.replies {
+					if rp != nil && len(rp.Question) == 1 && rp.Question[0].Qclass == q.Class {
+						m.Count("L5_class_probe_cache_hit_replies", 1)
+					}
+				}
+			}
+		}
+	}
+	// ---- (b) cache miss: a pool name the round does not use
+	if r.IntN(2) == 0 {
+		used := map[string]bool{}
+		for _, q := range x.rd.qs {
+			used[q.Name] = true
+		}
+		var free []string
+		for _, n := range c09NamePool {
+			if !used[n] {
+				free = append(free, n)
+			}
+		}
+		if len(free) == 0 {
+			return
+		}
+		name := free[r.IntN(len(free))]
+		q := c09Q{Name: c09MixCase(r, name), Type: []uint16{dnsmessage.TypeA, dnsmessage.TypeTXT}[r.IntN(2)], Class: dnsmessage.ClassCHAOS}
+		if len(x.entries(q)) > 0 {
+			return
+		}
+		calls0 := len(w.snapshotCalls())
+		c := x.do(x.path(), q, x.id())
+		calls := w.snapshotCalls()
+		x.logf("class CH query for an uncached name via %s (%s): %s %s", c.Path, q, strings.Join(c.Replies, " || "), c.Err)
+		if len(calls) == calls0 {
+			m.Count("L5_class_miss_probe_no_upstream_call", 1)
+		}
+		for _, uc := range calls[calls0:] {
+			if strings.HasSuffix(uc.Q, fmt.Sprintf("class=%d", q.Class)) {
+				m.Count("L5_class_miss_probe_upstream_saw_the_clients_class", 1)
+			} else {
+				m.Count("L5_class_miss_probe_upstream_saw_another_class", 1)
+			}
+		}
+		m.Count("L5_class_miss_probe/"+c.Path, 1)
+		if c09ClassMissJudged {
+			x.judge(c, "class-CH-cache-miss")
+		} else {
+			for _, rp := range c.replies {
+				switch {
+				case rp == nil || len(rp.Question) != 1:
+					m.Count("L5_class_miss_probe_observed/reply_without_one_question", 1)
+				case rp.Question[0].Qclass == q.Class:
+					m.Count("L5_class_miss_probe_observed/class_echoed", 1)
+				default:
+					m.Count("L5_class_miss_probe_observed/reply_question_has_class_"+strconv.Itoa(int(rp.Question[0].Qclass)), 1)
+				}
+			}
+		}
+	}
+}
+
+// c09ClassMissJudged: whether the reply to a class-CH query that misses the cache goes through the reply oracle.
+const c09ClassMissJudged = false
+
 func (e *c09Env) c09L5Round(r *rand.Rand, seq int) {
 	m := e.m
 	if e.l4Broken {
@@ -774,26 +904,7 @@ func (e *c09Env) c09L5Round(r *rand.Rand, seq int) {
 				m.Count("L5_reject/"+c.Path, 1)
 			}
 		}
-		// observation only: a query of a class other than IN for a cached name. dae keys its cache by
-		// (name, type) and packs stored replies with class IN; what comes back is recorded, not judged
-		// (the workload of this monitor is class IN; see the manifest).
-		if len(cached) > 0 && r.IntN(3) == 0 {
-			name := cached[r.IntN(len(cached))]
-			q := ask(name)
-			q.Class = dnsmessage.ClassCHAOS
-			c := x.do(x.path(), q, x.id())
-			x.logf("observed only: class CH query via %s (%s): %s %s", c.Path, q, strings.Join(c.Replies, " || "), c.Err)
-			for _, rp := range c.replies {
-				switch {
-				case rp == nil || len(rp.Question) != 1:
-					m.Count("L5_observed_class_CH_query/reply_without_one_question", 1)
-				case rp.Question[0].Qclass == q.Class:
-					m.Count("L5_observed_class_CH_query/class_echoed", 1)
-				default:
-					m.Count("L5_observed_class_CH_query/reply_question_has_class_"+strconv.Itoa(int(rp.Question[0].Qclass)), 1)
-				}
-			}
-		}
+		x.classProbe(state, qtype)
 		for _, uc := range w.snapshotCalls() {
 			if strings.Contains(strings.ToLower(uc.Q), c09RejectName) {
 				m.Count("L5_rejected_name_went_upstream", 1)
@@ -832,7 +943,11 @@ func c09L5Required() []string {
 		"L5_served_from_entry_via_no-packed-bytes/no-packed-bytes", "L5_served_from_entry_via_copy/threshold+1",
 		"L5_hits_packed_from_client_message",
 		"L5_clock/below-threshold/ready-made", "L5_clock/at-threshold/ready-made", "L5_clock/threshold+1/ready-made", "L5_clock/beyond-threshold/ready-made",
-		"L5_clock_replies/writer", "L5_clock_replies/udp"}
+		"L5_clock_replies/writer", "L5_clock_replies/udp",
+		"L5_class_probe_cache_hit_judged", "L5_class_miss_probe_upstream_saw_the_clients_class"}
+	for _, p := range c09L5Paths {
+		req = append(req, "L5_class_probe_cache_hit_judged/"+p, "L5_class_miss_probe/"+p)
+	}
 	for _, p := range c09L5Paths {
 		req = append(req, "L5_relay/"+p, "L5_singleflight_burst/"+p, "L5_reject/"+p)
 		for _, b := range c09L5Buckets {
